@@ -352,7 +352,10 @@ def _otfad_layout(rng, tier, aligned=None, small=False):
     lay = {"base": base, "len": length, "blobs": blobs, "cov": cov, "byte_swap": rng.random() < 0.4,
            "kek": _gen_key(rng, 16).hex(), "swap_cnt": core.pick(rng, [0, 0, 8, 8, 2, 4, 16]), "reversed": rng.random() < 0.5}
     if rng.random() < 0.6:
-        lay["scramble"] = [core.pick(rng, [rng.getrandbits(32), 0, 0xFFFFFFFF, 1, 0x80000000, 0x12345678]), rng.getrandbits(8)]
+        # align 0 (every context XORs the mask into KEK word 0) and 0xFF are legal edge values: a truthiness test
+        # instead of 'is not None' on either parameter silently switches the scrambling off
+        lay["scramble"] = [core.pick(rng, [rng.getrandbits(32), rng.getrandbits(32), 0, 0xFFFFFFFF, 1, 0x80000000, 0x12345678]),
+                           core.pick(rng, [rng.getrandbits(8), rng.getrandbits(8), 0, 0, 0xFF, 0x72])]
     return lay
 
 
